@@ -290,7 +290,7 @@ def run(rep):
         which = ""
         if kind == "seed":
             idx = int(str(ev["what"]).split("form ")[1].split()[0])
-            names = ["f1", "f2", "f3", "pulldata_many_files", "many_namespaces", "dict_external_choices_without_header", "dict_form_id_and_id_string"]
+            names = ["f1", "f2", "f3", "pulldata_many_files", "many_namespaces", "dict_external_choices_without_header", "dict_form_id_and_id_string", "several_misspelled_sheets"]
             which = ":" + names[idx - (len(wbs) - len(names))] if idx >= len(wbs) - len(names) else ":decorated_form"
             which += ":second_conversion_of_same_object" if str(ev["what"]).endswith("conversion 2") and "seed 0 " in str(ev["what"]) + " " else ""
         rep.violation(f"{PROP}:{clause}:{kind}{which}", f"clause {clause} at event {l}: {ev} history={outs[i]['hist'] if i < len(outs) else ''}"[:700],
